@@ -116,7 +116,7 @@ def check_hist(ctx, depth, first):
                 if bodies != [(own[j], 100 + j)]:
                     bad = "calling owner %d's entry point ran %s, expected exactly f%d with argument %d" % (j, bodies, own[j], 100 + j)
         if bad:
-            ctx.violations.append({"check": ctx.name, "kernel": "k_cb_hist", "violated": bad, "inputs": {"ops": seq}, "outcome": q.status,
+            ctx.report(q, {"check": ctx.name, "kernel": "k_cb_hist", "violated": bad, "inputs": {"ops": seq}, "outcome": q.status,
                                    "msg": q.info, "replayed": None, "case": ctx.native_case(q, m) if ctx.native else None})
         else:
             ctx.discharged += 1
